@@ -74,7 +74,7 @@ class C11:
         n = 16
         per = 260 if tier == "quick" else 6000
         out = [dict(kind="single", index=i, n=per, timeout=420 if tier == "quick" else 3000) for i in range(8)]
-        out += [dict(kind="threads", index=20 + i, n=(60 if tier == "quick" else 1500), timeout=420 if tier == "quick" else 3000) for i in range(6)]
+        out += [dict(kind="threads", index=20 + i, n=(36 if tier == "quick" else 1500), timeout=420 if tier == "quick" else 3000) for i in range(6)]
         out += [dict(kind="session", index=40 + i, n=(60 if tier == "quick" else 1500), timeout=420 if tier == "quick" else 3000) for i in range(2)]
         return out
 
@@ -393,6 +393,21 @@ class C11:
         """`$K=v cmd` prefixes and swaps around commands whose alias runs in a proxy thread."""
         env = self.fresh()
         XSH, ex = self.XSH, self.ex
+        if not hasattr(self, "inj_late"):
+            # schedule: in every other case the alias thread starts late - it is held at the first statement of
+            # ProcProxyThread.run, i.e. after the spawner captured its swapped view and before the thread applies it
+            from vlib.sched import Injector, _code_of
+            from xonsh.procs.proxies import ProcProxyThread
+
+            self.inj_late = Injector(0, p=0.0)
+            self.inj_late.target(ProcProxyThread.run)
+            c = _code_of(ProcProxyThread.run)
+            self.late_site = (c.co_name, min(ln for _, _, ln in c.co_lines() if ln is not None and ln > c.co_firstlineno))
+            self.inj_late.start()
+        late = int(case["rseed"].rsplit("/", 1)[-1]) % 2 == 1
+        self.inj_late.forced = {self.late_site: 0.01} if late else {}
+        if late:
+            rec.count("session_cases_with_late_alias_thread")
         rng = random.Random(case["rseed"])
         seen = {}
 
@@ -413,7 +428,20 @@ class C11:
             frame = {k: pyval}
             stack = [("swap", frame)]
             try:
-                if outer:
+                if outer and rng.random() < 0.4:
+                    # the command is started as a live `!()` object inside a swap scope which the spawner leaves at once:
+                    # the alias thread must still see the view that was in effect when it was created
+                    ok2 = rng.choice([x for x in ("SETSTR", "UNKNOWNVAR", "SETPATH") if x != k])
+                    ov = rng.choice(VALS[ok2])
+                    src = f"_r = !(${k}={val} viewer a)\n"
+                    with env.swap(**{ok2: ov}):
+                        stack = [("swap", {ok2: ov}), ("swap", frame)]
+                        ex.exec(src, glbs=self.ctx, locs=self.ctx, mode="exec")
+                    rec.count("session_async_object_in_scope_left_early")
+                    _r = self.ctx.get("_r")
+                    if _r is not None:
+                        _r.end()
+                elif outer:
                     ok2 = rng.choice([x for x in ("SETSTR", "UNKNOWNVAR", "SETPATH") if x != k])
                     ov = rng.choice(VALS[ok2])
                     with env.swap(**{ok2: ov}):
@@ -455,6 +483,9 @@ class C11:
             if i < 1:
                 rec.sample(case, sh["kind"])
             self.run_case(case, rec)
+        if hasattr(self, "inj_late"):
+            rec.count("late_alias_thread_delays_taken", self.inj_late.stats()["delays_injected"])
+            self.inj_late.stop()
         if hasattr(self, "inj"):
             st = self.inj.stats()
             rec.count("delays_injected", st["delays_injected"])
